@@ -417,15 +417,21 @@ pub fn run(a: &Args) {
                 let mut first = 0u8;
                 let mut names = vec![];
                 let mut groups = 0;
+                let mut cur = 0u8;
                 for t in &tz.toks {
                     match t {
                         Tok::Delim(d) => {
                             groups += 1;
+                            cur = *d;
                             if groups == 1 {
                                 first = *d;
                             }
                         }
                         Tok::Val(w) if groups == 1 && !w.name.is_empty() => names.push(hexs(&w.name)),
+                        // operation target attributes found in a later operation-attributes group
+                        Tok::Val(w) if groups > 1 && cur == 1 && [&b"printer-uri"[..], b"job-uri", b"job-id"].contains(&&w.name[..]) => {
+                            names.push(format!("LATER:{}", hexs(&w.name)))
+                        }
                         _ => {}
                     }
                 }
@@ -437,9 +443,9 @@ pub fn run(a: &Args) {
                 orders_seen.insert((ci, names.clone()));
                 let ev = json!({"ev": "order", "op": op, "first": first, "names": names, "instances": cnt});
                 if samples.len() < 3 {
-                    samples.push(json!({"op": op, "calls": c["calls"], "extras": c["extras"], "order": names.iter().map(|h| unhexs(h)).collect::<Vec<_>>()}));
+                    samples.push(json!({"op": op, "calls": c["calls"], "extras": c["extras"], "order": names.iter().map(|h| if h.starts_with("LATER:") { h.clone() } else { unhexs(h) }).collect::<Vec<_>>()}));
                 }
-                sink.emit(&ev, &json!({"abstract": c, "target": target, "order": names.iter().map(|h| unhexs(h)).collect::<Vec<_>>()}));
+                sink.emit(&ev, &json!({"abstract": c, "target": target, "order": names.iter().map(|h| if h.starts_with("LATER:") { h.clone() } else { unhexs(h) }).collect::<Vec<_>>()}));
             }
         }
     }
